@@ -11,3 +11,6 @@ if "--write" not in sys.argv:
     sys.exit(0)
 open(f"{V}/sa/known_functions.txt", "w").write("\n".join(sorted(r.funcs)) + "\n")
 open(f"{V}/sa/known_classes.txt", "w").write("\n".join(sorted(r.classes)) + "\n")
+# parameter names of every function of the pinned tree: a parameter NOT listed here was added later; when such a function is the entry
+# point of a rule, the new parameter takes its declared default (no caller of the pinned world passes it)
+open(f"{V}/sa/known_params.txt", "w").write("\n".join(f"{q} {' '.join(r.funcs[q].params)}" for q in sorted(r.funcs)) + "\n")
